@@ -505,8 +505,29 @@ def _truncate_problems(L, pa, pt):
     return problems
 
 
+def _conversion_problems(L, lo, hi):
+    """junction / exon conversion on position sets: junctions_from_blocks(L) are exactly the non-empty gaps between consecutive blocks;
+    get_exons((lo, hi), introns L) are exactly the maximal runs of positions of lo..hi that lie in no intron (touching introns and introns
+    at the very border of the region leave no empty or inverted exon behind)"""
+    com = native.repo_import("src/common.py")
+    problems = []
+    J = com.junctions_from_blocks(list(L))
+    want = [(L[k][1] + 1, L[k + 1][0] - 1) for k in range(len(L) - 1) if L[k][1] + 1 <= L[k + 1][0] - 1]
+    if [tuple(x) for x in J] != want:
+        problems.append("junctions_from_blocks(%s) = %s, the gaps are %s" % (L, J, want))
+    if lo <= L[0][0] and L[-1][1] <= hi:
+        E = com.get_exons((lo, hi), list(L))
+        free = set(range(lo, hi + 1)) - _pos(L)
+        if [tuple(x) for x in E] != _blocks_of(free):
+            problems.append("get_exons((%d, %d), %s) = %s, the positions outside the introns form %s" % (lo, hi, L, E, _blocks_of(free)))
+    return problems
+
+
 def replay_set_semantics(d):
     i = d["inputs"]
+    if "region" in i:
+        p = _conversion_problems([tuple(x) for x in i["L1"]], i["region"][0], i["region"][1])
+        return (not p), "%s: %s" % (i, p or "equal to the set-of-positions definition")
     if "polya" in i:
         p = _truncate_problems([tuple(x) for x in i["L1"]], i["polya"], i["polyt"])
     else:
@@ -514,8 +535,8 @@ def replay_set_semantics(d):
     return (not p), "%s: %s" % (i, p or "equal to the set-of-positions definition")
 
 
-@bounded("C19.set_semantics", ["C19"], note="jaccard_similarity, merge_ranges, read_coverage_fraction, extra_exon_percentage, GeneInfo.split_exons "
-         "and truncate_read_to_polya against the definition on sets of positions: ALL pairs of sorted disjoint interval lists over the "
+@bounded("C19.set_semantics", ["C19"], note="jaccard_similarity, merge_ranges, read_coverage_fraction, extra_exon_percentage, GeneInfo.split_exons, "
+         "junctions_from_blocks / get_exons and truncate_read_to_polya against the definition on sets of positions: ALL pairs of sorted disjoint interval lists over the "
          "coordinates 1..7 (quick: 1..6), all polyA/polyT positions inside the read, plus random large instances")
 def c19_set_semantics(tier, rng):
     import itertools
@@ -554,6 +575,14 @@ def c19_set_semantics(tier, rng):
                 p = _truncate_problems(L, pa, pt)
                 if p:
                     return viol({"L1": L, "polya": pa, "polyt": pt}, p)
+    # junction / exon conversion: every interval list (incl. touching intervals) as blocks and as introns of every region that contains it
+    for L in lists:
+        for lo in range(1, L[0][0] + 1):
+            for hi in range(L[-1][1], U + 1):
+                cases += 1
+                p = _conversion_problems(L, lo, hi)
+                if p:
+                    return viol({"L1": L, "region": [lo, hi]}, p)
     for _ in range(300 if tier == "quick" else 20000):
         def rl():
             out, p = [], rng.randint(1, 50)
